@@ -6,6 +6,7 @@ import (
 	"fmt"
 	"io"
 	"strconv"
+	"time"
 )
 
 type vfFlipReader struct {
@@ -59,6 +60,43 @@ func vfExecMore14(f []string, op string) (string, bool) {
 		Extend(func([]byte, uint32) bool { SetLimit(uint32(l2)); return false }, "application/x-verif-flip", ".vflip")
 		m := Detect(data)
 		return fmt.Sprintf("%s => nil %s %s %s", op, vfRes(m), a, b), true
+	case "extflip": // extflip hex : two Extend calls land in the middle of the tree walk of one Detect
+		data := vfUnhex(f[1])
+		if vfBuiltin == nil {
+			vfBuiltin = vfSnapshot()
+		}
+		vfBuiltin.restore()
+		defer vfBuiltin.restore()
+		SetLimit(3072)
+		r0 := vfChain(Detect(data)) // the tree before any of the calls
+		done := make(chan struct{})
+		fired := false
+		// a root-level extension that never matches; when consulted it lets another goroutine register a rival at
+		// the root (matches everything) and a child under text/plain (matches everything), and gives it a moment
+		Extend(func([]byte, uint32) bool {
+			if !fired {
+				fired = true
+				go func() {
+					Extend(func([]byte, uint32) bool { return true }, "application/x-verif-rival", ".vrv")
+					if tp := Lookup("text/plain"); tp != nil {
+						tp.Extend(func([]byte, uint32) bool { return true }, "text/x-verif-late-child", ".vlc")
+					}
+					close(done)
+				}()
+				select {
+				case <-done:
+				case <-time.After(150 * time.Millisecond):
+				}
+			}
+			return false
+		}, "application/x-verif-trigger", ".vtr")
+		got := vfChain(Detect(data))
+		select {
+		case <-done:
+		case <-time.After(5 * time.Second):
+		}
+		rfinal := vfChain(Detect(data)) // the tree after both calls
+		return fmt.Sprintf("%s => %s %s %s", op, got, r0, rfinal), true
 	}
 	return vfExecMore15(f, op)
 }
@@ -96,6 +134,10 @@ func (g *vfGen) genLimFlip() {
 				g.emit(vfOp("matchflip", l1, l2, d))
 			}
 		}
+	}
+	// Extend calls that land in the middle of a walk: the answer is the answer for the tree before or after them
+	for _, d := range [][]byte{[]byte("plain text"), []byte("{\"a\":1}"), []byte("a,b\n1,2\n3,4\n"), {}, []byte("<html><body>x"), []byte("%PDF-1.4")} {
+		g.emit(vfOp("extflip", d))
 	}
 	// documents longer than the first limit, the limit raised beyond their length (and back) during the walk
 	long := []byte("{\"items\":[")
